@@ -224,6 +224,40 @@ Example C11_fronting_ex :
             q_host_header := bs "broker.example"; q_path := bs "/amp/client/0AAAAAAAAAAAA/QUJD"; q_rawquery := []; q_body := None |}.
 Proof. cbv zeta. split; [discriminate|]. split; vm_compute; reflexivity. Qed.
 
+(* through an AMP cache, end to end: for a non-empty poll, a broker base path /b1/…/bk/ and a
+   cache path /c1/…/cm[/] without empty or dot segments, the request path is
+   /<cache path>/c[/s]/<broker host>/<broker path>/amp/client/0<pad>/<base64url(poll)>,
+   i.e. it ends in the broker's AMP route followed by an encoded path that decodes to the poll *)
+Theorem C11_amp_cache_end_to_end :
+  forall (to_unicode to_ascii : bytes -> option bytes) (sha256 : bytes -> bytes) (h34 : bytes -> bool)
+         b cu csegs bsegs (trailing : bool) front cb data q,
+  wf_bytes data -> data <> [] ->
+  Forall normal_seg csegs -> Forall normal_seg bsegs ->
+  c_epath cu = abs_path csegs ++ (if trailing then [SLASHC] else []) ->
+  b_epath b = abs_path bsegs ++ [SLASHC] ->
+  b_hostname b <> [DOTC] -> b_hostname b <> [DOTC; DOTC] ->
+  amp_request to_unicode to_ascii sha256 h34 b (Some cu) front cb data = Some q ->
+  q_path q = abs_path (csegs ++ middle (amp_pub_url b cb data) ++ bsegs ++ amp_segs cb data) /\
+  (exists pre, q_path q = pre ++ AMP_ROUTE ++ encode_path cb data) /\
+  decode_path (encode_path cb data) = POk data.
+Proof. exact amp_cache_end_to_end. Qed.
+
+Example C11_amp_cache_end_to_end_ex :
+  let b := {| b_scheme := S_HTTPS; b_user := false; b_host := bs "broker.example"; b_hostname := bs "broker.example";
+              b_port := []; b_epath := bs "/x/" |} in
+  let cu := {| c_scheme := S_HTTPS; c_user := None; c_hostname := bs "cdn.ampproject.org"; c_port := [];
+               c_epath := bs "/"; c_rawquery := []; c_fragment := [] |} in
+  Forall normal_seg [bs "x"] /\ b_epath b = abs_path [bs "x"] ++ [SLASHC] /\ c_epath cu = abs_path [] ++ [SLASHC] /\
+  amp_request (fun x => Some x) (fun x => Some x) (fun _ => []) h34_runes b (Some cu) (bs "front.example") (repeat 0 9) (bs "ABC") =
+    Some {| q_method := bs "GET"; q_scheme := S_HTTPS; q_connect_host := bs "front.example";
+            q_host_header := bs "broker-example.cdn.ampproject.org";
+            q_path := bs "/c/s/broker.example/x/amp/client/0AAAAAAAAAAAA/QUJD"; q_rawquery := []; q_body := None |}.
+Proof.
+  cbv zeta. split.
+  - apply Forall_cons; [repeat split; try discriminate; vm_compute; intuition discriminate|apply Forall_nil].
+  - vm_compute. repeat split.
+Qed.
+
 (* ---------------- client: bounded responses ---------------- *)
 
 (* an exchange yields data only for status 200 and a body within the limit, and then the
